@@ -14,7 +14,7 @@ import os
 
 from . import common, fttaskx, pure
 
-PROOFS = ["proofs/DelayedProofs.v", "models/Delayed.v"]
+PROOFS = ["proofs/DelayedProofs.v", "models/Delayed.v", "proofs/HeapProofs.v", "lib/Heap.v"]
 SEC = 1000000000
 ENV = dict(os.environ, GOMAXPROCS="2")
 
@@ -383,8 +383,8 @@ def process(chk, binary, scripts, record=True):
     impl = run_impl(chk, binary, scripts)
     ml0, ml1, idx = [], [], []
     for s in scripts:
-        a = s.model_lines(pq=0)
-        b = s.model_lines(pq=1)
+        a = s.model_lines(pq=2)   # the faithful container/heap instance
+        b = s.model_lines(pq=1 if len(ml0) % 2 else 0)   # a sorted-list instance (alternating tie order)
         idx.append((len(ml0), len(a)))
         ml0 += a
         ml1 += b
@@ -410,7 +410,7 @@ def process(chk, binary, scripts, record=True):
 
 def coq_crosscheck(chk, scripts):
     """vm_compute inside coqc on the effective histories of a sample, against the extracted model."""
-    lines = [s.model_lines(pq=0, dump=True)[0] for s in scripts]
+    lines = [s.model_lines(pq=2, dump=True)[0] for s in scripts]
     outs = common.run_model(lines)
     items = []
     for s, o in zip(scripts, outs):
@@ -449,7 +449,7 @@ Fixpoint eqb3 (a b : list (Z * Z * Z)) : bool :=
   | _, _ => false end.
 Definition ok (c : list (Z * nat) * list dl_event * list (Z * Z * Z)) : bool :=
   match c with (caps, h, e) =>
-    match dl_run_sorted caps h with Some (_, o) => eqb3 (flat_map got_of o) e | None => false end end.
+    match dl_run dl_heap_pq (dl_init dl_heap_pq caps) h with Some (_, o) => eqb3 (flat_map got_of o) e | None => false end end.
 Definition cases := [%s].
 Definition bad := Eval vm_compute in length (filter (fun c => negb (ok c)) cases).
 Print bad.
@@ -475,8 +475,9 @@ def run(chk):
         "Go faketime runtime (playground clock) as the source of virtual time; harness/cmd/fttaskx",
         "modelled, not verified: the loop's select/ticker/channel semantics (a tick or request is taken only when the loop is at its select; "
         "ticker channel capacity 1; time.Now() read after the tick is taken), SendCallback on a full target blocks the loop, on a closed target returns at once",
-        "priority queue: abstract interface (multiset-preserving push/pop, pop returns a minimal trigger time, ties arbitrary); extracted model runs two "
-        "sorted-list instances with opposite tie orders; container/heap itself is modelled in coq/lib/Heap.v",
+        "priority queue: abstract interface (multiset-preserving push/pop, pop returns a minimal trigger time, ties arbitrary); the extracted model runs the "
+        "container/heap instance (coq/lib/Heap.v, laws proved: delayed_container_heap_pq_ok) and, for comparison, sorted-list instances with both tie orders; "
+        "Heap.v itself is compared with the real std.PriorityQueue on random Push/Pop/Top sequences in this check (stream heap-vs-std.PriorityQueue)",
     ]
     chk.assumptions = ["delay >= 0", "target queues have room (the property's proviso) for the lateness bound", "ticker period 1 s exact under faketime"]
     chk.cov["rule"] = ("case = timed script of 2..400 SendDelayed calls (send instant, delay, target queue) on 1-4 queues of size 1-8 against the real "
@@ -501,6 +502,13 @@ def run(chk):
             chk.cov["cases_loop_blocked"] = sum(1 for s, (st, ln) in zip(scripts, idx) if "roomy=0" in mo[st])
         except Exception as ex:
             chk.infra_errors.append("correspondence run failed: %r" % (ex,))
+        try:
+            from . import heapdiff
+            pb = pure.build_pure(chk)
+            if pb:
+                heapdiff.run(chk, pb, which=("heap",), with_monitor=True)
+        except Exception as ex:
+            chk.infra_errors.append("heap differential stream failed: %r" % (ex,))
         try:
             small = [s for s in scripts if len(s.sends) <= 40][:120]
             chk.cov["vm_compute_crosschecked"] = coq_crosscheck(chk, small)
@@ -531,8 +539,8 @@ def replay(chk, path):
         s = Script.parse(c)
         s.stream = "blocked" if any(m == "s" for _, m in s.caps) else ("tie-corpus" if s.tie_groups() else "burst")
         il = run_impl(chk, binary, [s])[0]
-        m0 = common.run_model(s.model_lines(0))
-        m1 = common.run_model(s.model_lines(1))
+        m0 = common.run_model(s.model_lines(2))
+        m1 = common.run_model(s.model_lines(0))
         mf = monitor(s, il)
         note = compare(s, il, m0, m1)
         print("case=%s\n  model=%s\n  impl=%s\n  monitor=%s compare=%s" % (c[:600], m0[0][:600], il[:600], mf, note))
